@@ -188,6 +188,8 @@ func processFile(filePath string, ctxt *processors.Context, checkOnly bool) erro
 		line, indent, err = processLine(line, indent)
 		if err != nil {
 			logger.Error().Err(err).Msgf("failed to format %s", filename)
+			// don't write a file that lost the offending line
+			return err
 		}
 		lines = append(lines, string(line))
 	}
